@@ -5,6 +5,7 @@ import (
 	"math/big"
 	"runtime"
 	"sync"
+	"sync/atomic"
 	"time"
 	"unsafe"
 
@@ -16,7 +17,10 @@ import (
 )
 
 type c17Live struct {
-	g     *circuit.Garbled
+	g      *circuit.Garbled // nil for an orphan: the handle was dropped, the slices are kept
+	gw     []ot.Wire        // the garbling's own Wires slice
+	gg     [][]ot.Label     // the garbling's own Gates slice
+	orphan bool
 	key   []byte
 	wires []ot.Wire    // snapshot right after Garble
 	gates [][]ot.Label // snapshot right after Garble
@@ -33,20 +37,20 @@ func snapGates(g [][]ot.Label) [][]ot.Label {
 }
 
 func sameGarbling(l *c17Live) string {
-	if len(l.g.Wires) != len(l.wires) || len(l.g.Gates) != len(l.gates) {
+	if len(l.gw) != len(l.wires) || len(l.gg) != len(l.gates) {
 		return "lengths changed"
 	}
 	for i := range l.wires {
-		if l.g.Wires[i] != l.wires[i] {
+		if l.gw[i] != l.wires[i] {
 			return fmt.Sprintf("wire %d changed", i)
 		}
 	}
 	for i := range l.gates {
-		if len(l.g.Gates[i]) != len(l.gates[i]) {
+		if len(l.gg[i]) != len(l.gates[i]) {
 			return fmt.Sprintf("table %d resized", i)
 		}
 		for j := range l.gates[i] {
-			if l.g.Gates[i][j] != l.gates[i][j] {
+			if l.gg[i][j] != l.gates[i][j] {
 				return fmt.Sprintf("table %d row %d changed", i, j)
 			}
 		}
@@ -57,7 +61,7 @@ func sameGarbling(l *c17Live) string {
 func init() {
 	vrt.Register(&vrt.Prop{
 		ID: "C17", Level: "exploration",
-		Rule: "case = a FRESH circuit value (generated, 3-400 gates, or parsed AES-128 in thorough) shared by G in {2,4,16,64} goroutines released by a barrier (so lazy pool creation is raced); each goroutine runs 30-300 operations drawn from {Garble, Eval on its own garbling, Compute, Release, double Release, hold-and-recheck} with its own deterministic label stream. Runs under the Go race detector. " +
+		Rule: "case = a FRESH circuit value (generated, 3-400 gates, or parsed AES-128 in thorough) shared by G in {2,4,16,64} goroutines released by a barrier (so lazy pool creation is raced); each goroutine runs 30-300 operations drawn from {Garble, Eval on its own garbling, Compute, Release, double Release, hold-and-recheck, keep the slices of a garbling but drop its handle and never release it (a few garbage collections are forced while such orphans are alive)} with its own deterministic label stream. Runs under the Go race detector. " +
 			"Oracles: zero race reports with circuit frames; Compute equals the reference evaluation; each Eval on the goroutine's own garbling decodes to the reference; a deep snapshot of a live garbling taken after Garble equals the garbling right before Release (nobody else wrote into its scratch); no two live garblings share a backing array. Distinct = hash of the completion order of operations (distinct interleavings observed).",
 		Assumptions: []string{"race reports vary from run to run: the script is repeated on fresh circuits"},
 		NumCases: func(t string) int {
@@ -129,6 +133,7 @@ func runC17(cs *vrt.Case) {
 		mu.Unlock()
 	}
 	start := make(chan struct{})
+	var gcs atomic.Int32
 	var wg sync.WaitGroup
 	seeds := make([]uint64, G)
 	for i := range seeds {
@@ -141,6 +146,7 @@ func runC17(cs *vrt.Case) {
 			rr := vrt.NewRng(seeds[id])
 			var mine []*c17Live
 			var keyBuf [32]byte
+			orphans := 0
 			reuseKeyBuf := id%2 == 1
 			local := map[string]int64{}
 			defer func() {
@@ -176,9 +182,18 @@ func runC17(cs *vrt.Case) {
 						report("Garble failed: " + err.Error())
 						return
 					}
-					l := &c17Live{g: g, key: key, wires: append([]ot.Wire(nil), g.Wires...), gates: snapGates(g.Gates), owner: id}
-					if len(g.Wires) > 0 {
-						l.wptr = uintptr(unsafe.Pointer(&g.Wires[0]))
+					l := &c17Live{g: g, gw: g.Wires, gg: g.Gates, key: key, wires: append([]ot.Wire(nil), g.Wires...), gates: snapGates(g.Gates), owner: id}
+					if orphans < 3 && len(c.Gates) < 5000 && rr.Intn(5) == 0 {
+						// keep the label and table slices, drop the handle and never
+						// release it (as sha2pc.GarblerRound3 does): the garbling has
+						// to stay valid for as long as its slices are referenced
+						l.g, l.orphan = nil, true
+						orphans++
+						local["garblings_kept_without_their_handle"]++
+					}
+					g = nil
+					if len(l.gw) > 0 {
+						l.wptr = uintptr(unsafe.Pointer(&l.gw[0]))
 					}
 					mu.Lock()
 					if o, dup := livePtr[l.wptr]; dup && l.wptr != 0 {
@@ -198,18 +213,18 @@ func runC17(cs *vrt.Case) {
 					wires := make([]ot.Label, c.NumWires)
 					for i := 0; i < nin; i++ {
 						if inputs[iv].Bit(i) == 1 {
-							wires[i] = l.g.Wires[i].L1
+							wires[i] = l.gw[i].L1
 						} else {
-							wires[i] = l.g.Wires[i].L0
+							wires[i] = l.gw[i].L0
 						}
 					}
-					if err := c.Eval(l.key, wires, l.g.Gates); err != nil {
+					if err := c.Eval(l.key, wires, l.gg); err != nil {
 						report("Eval on the goroutine's own garbling failed: " + err.Error())
 						return
 					}
 					for i := 0; i < nout; i++ {
 						w := c.NumWires - nout + i
-						bit, err := circuit.BitFromLabel(l.g.Wires[w], wires[w])
+						bit, err := circuit.BitFromLabel(l.gw[w], wires[w])
 						if err != nil || bit != (want[iv].Bit(i) == 1) {
 							report(fmt.Sprintf("concurrent Eval decoded output %d wrongly (%v, %v)", i, bit, err))
 							return
@@ -246,6 +261,10 @@ func runC17(cs *vrt.Case) {
 					local["computes"]++
 				case k == 7: // hold-and-recheck
 					l := mine[rr.Intn(len(mine))]
+					if l.orphan && gcs.Add(1) <= 4 {
+						runtime.GC() // a dropped handle may be collected; the slices it handed out are still ours
+						local["collections_with_orphans_alive"]++
+					}
 					if d := sameGarbling(l); d != "" {
 						report("a live garbling changed while its owner held it: " + d)
 						return
@@ -254,6 +273,9 @@ func runC17(cs *vrt.Case) {
 				default: // Release (sometimes twice)
 					i := rr.Intn(len(mine))
 					l := mine[i]
+					if l.orphan {
+						continue // never released
+					}
 					if d := sameGarbling(l); d != "" {
 						report("a live garbling changed before its Release: " + d)
 						return
